@@ -654,6 +654,14 @@ def run_delete(ctx, shapes, deadline, faults=False):
             try:
                 new_root, ret_items = rv.f[0].f[0], rv.f[0].f[1]
                 post, _deleted = apply_tmp(eng, pre.store, f.env["tmp"])
+                if not z3.is_bv_value(z3.simplify(new_root)):
+                    ok, m = eng.check(f.pc)
+                    if ok:
+                        fr_ok, fm = eng.check(f.pc + replay_friendly(pre, split_after))
+                        results["violations"].append({"shape": shape.name,
+                                                      "clause": "the id returned as the new root of the tree is an item id, not the id of a tree node",
+                                                      "pre": pre, "values": model_values(fm if fr_ok else m, pre, extra)})
+                    continue
                 v = check_inv(eng, f.pc, post, W.tree_id(new_root), remaining, remaining, "delete", tmp=f.env["tmp"])
                 if v is None:
                     ok, m = eng.check(f.pc, ret_items != remaining)
